@@ -29,6 +29,17 @@ pub trait Lab<C: Ciphersuite> {
     fn adv_scalar(&mut self, name: &str) -> Scalar<C>;
     /// an adversarially chosen group element of unknown discrete logarithm (non-identity)
     fn adv_element(&mut self, name: &str) -> Element<C>;
+    /// the given secret values, as functions of the caller-source draws they depend on, are affine
+    /// with constant slopes and their Jacobian has full row rank over Z_q: they are an invertible
+    /// image of that many independent draws, hence jointly uniform whatever everything else is
+    /// (symbolic runs only; concretely nothing can be differentiated and `true` is returned)
+    fn jointly_uniform(&mut self, _values: &[Scalar<C>], _what: &str) -> bool {
+        true
+    }
+    /// the same for the discrete logarithms of group elements (published commitments)
+    fn jointly_uniform_e(&mut self, _values: &[Element<C>], _what: &str) -> bool {
+        true
+    }
     /// compare the suite's hash number `which` (H1..H5 of RFC 9591) on `input` — whose encoded
     /// output is `got` — with an independent transcription of the RFC (concrete runs on the real
     /// RFC suites only; symbolically hashes are uninterpreted and nothing is compared)
